@@ -82,6 +82,7 @@ fn main() {
         "C05" => drive(&props::retry::C05, &opts),
         "C06" => drive(&props::timelimiter::C06, &opts),
         "C14" => drive(&props::backoff::C14, &opts),
+        "C12" => drive(&props::hedge::C12, &opts),
         "C02" => drive(&props::ratelimiter::C02, &opts),
         "C15" => drive(&props::ratelimiter::C15, &opts),
         _ => {
